@@ -792,7 +792,7 @@ impl Check for C12 {
 		CheckInfo {
 			id: "C12",
 			level: "exploration",
-			rule: "each case = seeded history over {add (nested) track with persistence on / off, play a probe sound (optionally self-finishing), play a static sound with a start delay, stop a sound, drop one track handle (parents, children, in any order), pause with a fade, resume now / delayed / at a clock time, start / drop the clock, callback} at a seeded internal buffer size; non-trivial = at least one 'frozen' or 'removed' expectation was checked; distinct = hash of per-callback (states reported by the handles, live tracks)",
+			rule: "4% of the cases are scheduled (c12_sched.rs): a gameplay task adds child tracks / plays sounds on a parent and drops the parent's handle against an audio task running callbacks, judged at quiescence (a live child is still processed, an accepted sound on a persisting parent still played); or a reader task polls TrackHandle::state() while the audio task cancels a resume_at whose clock was removed; the others: each case = seeded history over {add (nested) track with persistence on / off, play a probe sound (optionally self-finishing), play a static sound with a start delay, stop a sound, drop one track handle (parents, children, in any order), pause with a fade, resume now / delayed / at a clock time, start / drop the clock, callback} at a seeded internal buffer size; non-trivial = at least one 'frozen' or 'removed' expectation was checked; distinct = hash of per-callback (states reported by the handles, live tracks)",
 			assumptions: vec![
 				"a track's own timers (pause fade, resume delay) run only while every track above it is advancing; the model keeps a lower and an upper bound of that local time and only demands what both bounds agree on".into(),
 				"removal is demanded two callbacks after nothing keeps the track alive (one for pick-up, one for the removal of finished sounds); until then either outcome is accepted".into(),
